@@ -27,9 +27,11 @@ from sqlalchemy import sql
 import forml
 from forml import io, setup
 from forml.io import dsl
+from forml.io import _input as io_input
 from forml.provider.feed.reader import alchemy
 
 from vf.core import ctx as ctxmod
+from vf.core import caches
 from vf.core.hyp import Campaign, st
 from vf.dslx import ast as A
 from vf.dslx import build, catalog
@@ -391,10 +393,7 @@ def build_adv(node):
 
 
 def _clear_caches():
-    dsl.Source.__getitem__.cache_clear()
-    dsl.Source.Schema.__getitem__.cache_clear()
-    io.Importer.match.cache_clear()
-    alchemy.Reader._parse_statement.cache_clear()  # pylint: disable=protected-access
+    caches.clear(dsl.Source, dsl.Source.Schema, alchemy.Reader, io.Importer, io_input)  # wherever forml memoises: not named one by one
 
 
 def _parse(feed, statement):
